@@ -266,6 +266,10 @@ def run(case, ctx, rng):
             obj.K = Bits(K3, 64)
             ctx.eq('rekeyed:enc==standard', call(obj.enc, B), ref(c, K3, T, B, False), K=K3, B=B)
             ctx.eq('rekeyed:dec==standard', call(obj.dec, B), ref(c, K3, T, B, True), K=K3, B=B)
+            K4 = rng.randbytes(8)
+            obj.K.ival = Bits(K4, 64).ival                       # ... and refilled in place
+            ctx.eq('rekeyed:enc==standard', call(obj.enc, B), ref(c, K4, T, B, False), K=K4, B=B, how='K refilled in place')
+            ctx.eq('rekeyed:dec==standard', call(obj.dec, B), ref(c, K4, T, B, True), K=K4, B=B, how='K refilled in place')
         if case['kp'] == 'parity':
             # keys differing only in the (ignored) parity bits compute the same function
             K2 = bytes(b ^ 1 if (case['j'] >> (i % 6)) & 1 else b for i, b in enumerate(K))
